@@ -242,4 +242,257 @@ theorem proc_parent (S : Schema) (fx : Fixes) (U : DNode → Prop) (ho : OrdHyp 
   · show normNode S (.inner s fa ma r) = _
     exact normNode_inner_eq S s fa fb ma mb ka kb r hia hib hnr'
 
+/-- any diff node of the level: it is applied successfully and its key is then as in the second tree -/
+theorem process_node (S : Schema) (fx : Fixes) (U : DNode → Prop) (ho : OrdHyp S U) (fuelD : Nat)
+    (IH : LevelGoal S fx U fuelD) (top : Bool) (pre as bs out : List DNode) (ctx : LevelCtx S U pre as bs)
+    (hha : heightL as < fuelD + 1) (hhb : heightL bs < fuelD + 1)
+    (L : LevelD S top (diffSiblings S true fuelD false) as bs out)
+    (done : List Key) (data : List DNode) (hinv : Inv S pre as bs done data)
+    (d : DNode) (hd : d ∈ out) (hnd : kkey S d ∉ done) (fA : Nat) (hpB : Bool) (hfA : d.height ≤ fA + 1) :
+    ∃ data', applyNode S fx (fA + 1) data hpB (if top = true then none else some Op.none) d = .ok data' ∧
+      Inv S pre as bs (kkey S d :: done) data' := by
+  have hwb' : ∀ b ∈ bs, wfNode S b = true := fun b hb => wfL_mem S bs b ctx.wfb hb
+  have hrec0 := diffSiblings_nil S true fuelD false
+  rcases L.sound d hd with ⟨a, ha, hn⟩ | ⟨b, hb, hp, he⟩
+  · have hwa := wfL_mem S as a ctx.wfa ha
+    have hsubkey : ∀ b, partner S bs a = some b →
+        ∀ x ∈ (subOf S (diffSiblings S true fuelD false) a b).out, S.isKey x.sid = false := by
+      intro b hp x hx
+      obtain ⟨y, hy, he⟩ := diffSiblings_sids S true fuelD false _ _ x hx
+      rw [he]
+      rcases List.mem_append.1 hy with hy | hy
+      · exact noKeys_notKey S a hwa y hy
+      · exact noKeys_notKey S b (hwb' b (partner_mem S bs a b hp)) y hy
+    have hkd := node1_kkey S top _ bs a d hn hwa hwb' hrec0 hsubkey
+    rw [hkd] at hnd ⊢
+    cases hn with
+    | del hp => exact proc_del S fx pre as bs done data hinv a ha hwa hp hnd fA hpB _
+    | term b atr hp hat => exact proc_term S fx pre as bs done data hinv a b atr ha hwa hwb' hp hat hnd fA hpB _
+    | parent b src f m hp hat hne hsrc htop hmm =>
+      exact proc_parent S fx U ho fuelD IH top pre as bs ctx hha hhb done data hinv a b src f m ha hp hne hsrc htop hmm
+        hnd fA hpB hfA
+  · subst he
+    rw [cnode_kkey] at hnd ⊢
+    exact proc_create S fx U ho pre as bs ctx done data hinv b hb hp hnd fA hfA hpB _
+
+/-- all diff nodes of the level, in whatever order they come -/
+theorem fold_out (S : Schema) (fx : Fixes) (U : DNode → Prop) (ho : OrdHyp S U) (fuelD : Nat)
+    (IH : LevelGoal S fx U fuelD) (top : Bool) (pre as bs out : List DNode) (ctx : LevelCtx S U pre as bs)
+    (hha : heightL as < fuelD + 1) (hhb : heightL bs < fuelD + 1)
+    (L : LevelD S top (diffSiblings S true fuelD false) as bs out) (fA : Nat) (hpB : Bool) :
+    ∀ (todo : List DNode) (done : List Key) (data : List DNode), (∀ d ∈ todo, d ∈ out) →
+      todo.Pairwise (fun x y => kkey S x ≠ kkey S y) → (∀ d ∈ todo, kkey S d ∉ done) →
+      Inv S pre as bs done data → heightL todo ≤ fA + 1 →
+      ∃ r, todo.foldlM (fun sibs d => applyNode S fx (fA + 1) sibs hpB (if top = true then none else some Op.none) d) data
+          = .ok r ∧ Inv S pre as bs ((todo.map (kkey S)).reverse ++ done) r
+  | [], done, data, _, _, _, hinv, _ => ⟨data, rfl, by simpa using hinv⟩
+  | d :: rest, done, data, hsub, hpw, hnd, hinv, hh => by
+    have hpw' := List.pairwise_cons.1 hpw
+    have hhd : d.height ≤ fA + 1 := Nat.le_trans (heightL_mem _ d (by simp)) hh
+    obtain ⟨data', happ, hinv'⟩ := process_node S fx U ho fuelD IH top pre as bs out ctx hha hhb L done data hinv d
+      (hsub d (by simp)) (hnd d (by simp)) fA hpB hhd
+    obtain ⟨r, hr, hir⟩ := fold_out S fx U ho fuelD IH top pre as bs out ctx hha hhb L fA hpB rest (kkey S d :: done) data'
+      (fun x hx => hsub x (by simp [hx])) hpw'.2
+      (by
+        intro x hx
+        simp only [List.mem_cons, not_or]
+        exact ⟨fun e => hpw'.1 x hx e.symm, hnd x (by simp [hx])⟩)
+      hinv' (Nat.le_trans (heightL_sublist (List.sublist_cons_self d rest)) hh)
+    refine ⟨r, ?_, ?_⟩
+    · simp only [List.foldlM_cons, happ, bind, Except.bind]
+      exact hr
+    · simpa [List.map_cons, List.reverse_cons, List.append_assoc] using hir
+
+/-! ### the end of a level -/
+
+/-- a matched pair without an operation and with an empty sub-diff: the same up to `normNode` -/
+theorem noemit_norm (S : Schema) (fx : Fixes) (U : DNode → Prop) (ho : OrdHyp S U) (fuelD : Nat)
+    (IH : LevelGoal S fx U fuelD) (pre as bs : List DNode) (ctx : LevelCtx S U pre as bs)
+    (hha : heightL as < fuelD + 1) (hhb : heightL bs < fuelD + 1)
+    (a b : DNode) (ha : a ∈ as) (hb : b ∈ bs) (hkb : kkey S b = kkey S a)
+    (hat : plainAttrs S true (some a) (some b) = none)
+    (hem : (subOf S (diffSiblings S true fuelD false) a b).out = []) : normNode S a = normNode S b := by
+  have hwa := wfL_mem S as a ctx.wfa ha
+  have hwb := wfL_mem S bs b ctx.wfb hb
+  have hsb := kkey_sid S b a hkb
+  rcases plainSid_cases S a.sid (wfNode_plain S a hwa) with ht | hin
+  · rw [term_unchanged S a b hwa hwb hkb.symm ht hat]
+  · obtain ⟨fa, ma, ka, ea⟩ := inner_of_shape S a (wfNode_shape S a hwa) hin
+    obtain ⟨fb, mb, kb, eb⟩ := inner_of_shape S b (wfNode_shape S b hwb) (by rw [hsb]; exact hin)
+    rw [hsb] at eb
+    generalize a.sid = s at ea eb hin
+    subst ea eb
+    have hia := wfNode_inner S _ _ _ _ hwa
+    have hib := wfNode_inner S _ _ _ _ hwb
+    have hUa : U (.inner s fa ma ka) := ctx.inU _ (by simp [ha])
+    have hUb : U (.inner s fb mb kb) := ctx.inU _ (by simp [hb])
+    have hsub_def : subOf S (diffSiblings S true fuelD false) (.inner s fa ma ka) (.inner s fb mb kb)
+        = diffSiblings S true fuelD false (noKeys S ka) (noKeys S kb) := rfl
+    rw [hsub_def] at hem
+    have hkctx := kids_ctx S U ho s fa fb ma mb ka kb hia hib hkb.symm hUa hUb
+    have hh1 : heightL (noKeys S ka) < fuelD := by
+      have h1 := heightL_mem as _ ha
+      have h2 := heightL_sublist (noKeys_sublist S ka)
+      simp only [DNode.height] at h1
+      omega
+    have hh2 : heightL (noKeys S kb) < fuelD := by
+      have h1 := heightL_mem bs _ hb
+      have h2 := heightL_sublist (noKeys_sublist S kb)
+      simp only [DNode.height] at h1
+      omega
+    obtain ⟨r, hr, hnr⟩ := IH false true (keysOf S ka) (noKeys S ka) (noKeys S kb) 0 hkctx hh1 hh2
+      (by rw [hem]; simp [heightL])
+    rw [hem] at hr
+    simp only [List.foldlM_nil, pure, Except.pure, Except.ok.injEq, keys_append_noKeys] at hr
+    subst hr
+    have hnr' : normL S ka = normL S kb := by
+      rw [hnr, keysOf_eq_of_kkey S s fa fb ma mb ka kb hia hib hkb.symm, keys_append_noKeys]
+    exact normNode_inner_eq S s fa fb ma mb ka kb ka hia hib hnr'
+
+theorem level_final (S : Schema) (fx : Fixes) (U : DNode → Prop) (ho : OrdHyp S U) (fuelD : Nat)
+    (IH : LevelGoal S fx U fuelD) (top : Bool) (pre as bs out : List DNode) (ctx : LevelCtx S U pre as bs)
+    (hha : heightL as < fuelD + 1) (hhb : heightL bs < fuelD + 1)
+    (L : LevelD S top (diffSiblings S true fuelD false) as bs out)
+    (doneF : List Key) (r : List DNode) (hinv : Inv S pre as bs doneF r)
+    (hdone : ∀ k, k ∈ doneF ↔ ∃ d ∈ out, kkey S d = k) : normL S r = normL S (pre ++ bs) := by
+  have hwa' : ∀ a ∈ as, wfNode S a = true := fun a ha => wfL_mem S as a ctx.wfa ha
+  have hwb' : ∀ b ∈ bs, wfNode S b = true := fun b hb => wfL_mem S bs b ctx.wfb hb
+  have hrec0 := diffSiblings_nil S true fuelD false
+  have hspa : ∀ x ∈ pre ++ as, shapeOk S x = true := by
+    intro x hx
+    rcases List.mem_append.1 hx with hx | hx
+    · exact ctx.spre x hx
+    · exact wfNode_shape S x (hwa' x hx)
+  have hspb : ∀ x ∈ pre ++ bs, shapeOk S x = true := by
+    intro x hx
+    rcases List.mem_append.1 hx with hx | hx
+    · exact ctx.spre x hx
+    · exact wfNode_shape S x (hwb' x hx)
+  have hpwa := List.pairwise_append.1 (canon_pairwise_kkey S (pre ++ as) ctx.ca hspa)
+  have hpwb := List.pairwise_append.1 (canon_pairwise_kkey S (pre ++ bs) ctx.cb hspb)
+  -- the key of a diff node is the key of a compared sibling
+  have hkeyOut : ∀ d ∈ out, (∃ a ∈ as, kkey S d = kkey S a) ∨ (∃ b ∈ bs, kkey S d = kkey S b) := by
+    intro d hd
+    rcases L.sound d hd with ⟨a, ha, hn⟩ | ⟨b, hb, _, he⟩
+    · left
+      refine ⟨a, ha, node1_kkey S top _ bs a d hn (hwa' a ha) hwb' hrec0 ?_⟩
+      intro b hp x hx
+      obtain ⟨y, hy, he⟩ := diffSiblings_sids S true fuelD false _ _ x hx
+      rw [he]
+      rcases List.mem_append.1 hy with hy | hy
+      · exact noKeys_notKey S a (hwa' a ha) y hy
+      · exact noKeys_notKey S b (hwb' b (partner_mem S bs a b hp)) y hy
+    · right; exact ⟨b, hb, by rw [he, cnode_kkey]⟩
+  have hpreNotDone : ∀ y ∈ pre, kkey S y ∉ doneF := by
+    intro y hy hk
+    obtain ⟨d, hd, hkd⟩ := (hdone _).1 hk
+    rcases hkeyOut d hd with ⟨a, ha, he⟩ | ⟨b, hb, he⟩
+    · exact hpwa.2.2 y hy a ha (by rw [← hkd, he])
+    · exact hpwb.2.2 y hy b hb (by rw [← hkd, he])
+  apply canon_ext S ho.asym r (pre ++ bs) hinv.canon ctx.cb hinv.shape hspb
+  · intro x hx
+    by_cases hk : kkey S x ∈ doneF
+    · obtain ⟨y, hy, hky, hny⟩ := hinv.new x hx hk
+      exact ⟨y, by simp [hy], hky.symm, hny⟩
+    · rcases List.mem_append.1 (hinv.old x hx hk) with hxp | hxa
+      · exact ⟨x, by simp [hxp], rfl, rfl⟩
+      · rcases L.complete1 x hxa with ⟨b, hp, hat, hem⟩ | ⟨d, hd, hn⟩
+        · have hnd := plainSid_not_dupInst S x.sid (wfNode_plain S x (hwa' x hxa))
+          have hbm := partner_mem S bs x b hp
+          have hkb := partner_kkey S bs x b hnd hp
+          exact ⟨b, by simp [hbm], hkb.symm,
+            noemit_norm S fx U ho fuelD IH pre as bs ctx hha hhb x b hxa hbm hkb hat hem⟩
+        · exfalso
+          apply hk
+          rcases hkeyOut d hd with _ | _
+          all_goals
+            refine (hdone _).2 ⟨d, hd, ?_⟩
+            refine node1_kkey S top _ bs x d hn (hwa' x hxa) hwb' hrec0 ?_
+            intro b hp z hz
+            obtain ⟨y, hy, he⟩ := diffSiblings_sids S true fuelD false _ _ z hz
+            rw [he]
+            rcases List.mem_append.1 hy with hy | hy
+            · exact noKeys_notKey S x (hwa' x hxa) y hy
+            · exact noKeys_notKey S b (hwb' b (partner_mem S bs x b hp)) y hy
+  · intro y hy
+    rcases List.mem_append.1 hy with hyp | hyb
+    · exact ⟨y, hinv.keepOld y (by simp [hyp]) (hpreNotDone y hyp), rfl⟩
+    · by_cases hk : kkey S y ∈ doneF
+      · exact hinv.haveNew y hyb hk
+      · have hnd := plainSid_not_dupInst S y.sid (wfNode_plain S y (hwb' y hyb))
+        cases hp : partner S as y with
+        | none =>
+          exfalso
+          exact hk ((hdone _).2 ⟨cnode y, L.complete2 y hyb hp, cnode_kkey S y⟩)
+        | some a =>
+          have ham := partner_mem S as y a hp
+          have hka := partner_kkey S as y a hnd hp
+          exact ⟨a, hinv.keepOld a (by simp [ham]) (by rw [hka]; exact hk), hka⟩
+
+/-! ### the induction over the height -/
+
+theorem Inv.init (S : Schema) (U : DNode → Prop) (pre as bs : List DNode) (ctx : LevelCtx S U pre as bs) :
+    Inv S pre as bs [] (pre ++ as) where
+  canon := ctx.ca
+  shape := by
+    intro x hx
+    rcases List.mem_append.1 hx with hx | hx
+    · exact ctx.spre x hx
+    · exact wfNode_shape S x (wfL_mem S as x ctx.wfa hx)
+  keysIn := fun x hx => ⟨x, by simp only [List.mem_append] at hx ⊢; exact Or.inl hx, rfl⟩
+  old := fun x hx _ => hx
+  new := fun x _ h => by simp at h
+  keepOld := fun a ha _ => ha
+  haveNew := fun y _ h => by simp at h
+
+theorem levelGoal_all (S : Schema) (fx : Fixes) (U : DNode → Prop) (ho : OrdHyp S U) :
+    ∀ (fuelD : Nat), LevelGoal S fx U fuelD
+  | 0 => by intro top hp pre as bs fuelA _ h; omega
+  | fuelD + 1 => by
+    intro top hp pre as bs fuelA ctx hha hhb hout
+    have IH := levelGoal_all S fx U ho fuelD
+    obtain ⟨_, L⟩ := levelD S fuelD top as bs ctx.wfa ctx.wfb (canonB_append_right S pre as ctx.ca)
+      (canonB_append_right S pre bs ctx.cb)
+    generalize (diffSiblings S true (fuelD + 1) top as bs).out = out at L hout
+    cases fuelA with
+    | zero =>
+      -- no fuel: the diff level is empty
+      have hout0 : out = [] := by
+        cases out with
+        | nil => rfl
+        | cons d rest =>
+          have h1 := height_pos d
+          simp only [heightL] at hout
+          have h2 := Nat.le_trans (Nat.le_max_left d.height (heightL rest)) hout
+          omega
+      subst hout0
+      refine ⟨pre ++ as, rfl, ?_⟩
+      exact level_final S fx U ho fuelD IH top pre as bs [] ctx hha hhb L [] (pre ++ as) (Inv.init S U pre as bs ctx)
+        (by intro k; simp)
+    | succ fA =>
+      obtain ⟨r, hr, hir⟩ := fold_out S fx U ho fuelD IH top pre as bs out ctx hha hhb L fA hp out [] (pre ++ as)
+        (fun d hd => hd) L.distinct (fun d _ => by simp) (Inv.init S U pre as bs ctx) hout
+      refine ⟨r, hr, ?_⟩
+      apply level_final S fx U ho fuelD IH top pre as bs out ctx hha hhb L _ r hir
+      intro k
+      simp only [List.append_nil, List.mem_reverse, List.mem_map]
+
+/-- **apply(diff(A, B), A) = B on the fragment**, for the model of `lyd_diff_siblings` + `lyd_diff_apply_all` -/
+theorem apply_diff_fragment (S : Schema) (fx : Fixes) (U : DNode → Prop) (ho : OrdHyp S U) (A B : List DNode)
+    (hA : wfForest S A = true) (hB : wfForest S B = true) (hU : ∀ x ∈ A ++ B, U x) :
+    ∃ B', apply S A (diffFromPtr S true A B fx) fx = .ok B' ∧ normL S B' = normL S B := by
+  simp only [wfForest, Bool.and_eq_true] at hA hB
+  have ctx : LevelCtx S U [] A B :=
+    { wfa := hA.1.1, wfb := hB.1.1, ca := by simpa using hA.1.2, cb := by simpa using hB.1.2,
+      spre := fun x hx => by simp at hx, inU := by simpa using hU }
+  obtain ⟨hptr, _⟩ := levelD S (Nat.max (heightL A) (heightL B)) true A B hA.1.1 hB.1.1 hA.1.2 hB.1.2
+  have hgoal := levelGoal_all S fx U ho (Nat.max (heightL A) (heightL B) + 1) true false [] A B
+    (heightL (diffSiblings S true (Nat.max (heightL A) (heightL B) + 1) true A B).out + 1) ctx
+    (Nat.lt_succ_of_le (Nat.le_max_left _ _)) (Nat.lt_succ_of_le (Nat.le_max_right _ _)) (Nat.le_succ _)
+  obtain ⟨r, hr, hn⟩ := hgoal
+  refine ⟨r, ?_, by simpa using hn⟩
+  unfold apply diffFromPtr diffFull
+  simp only [hptr, ite_self, List.drop_zero]
+  simpa using hr
+
 end LyModel.Diff
